@@ -131,8 +131,7 @@ harness!(max_len_upper_bound, 10, {
     assert!(ml.is_some() || m.allow_list.map(|a| a.has_full).unwrap_or(true));
 });
 
-// @harness props=C21 tier=thorough timeout=900 cfg=verif_u2 desc="iter_ids yields exactly the selected ids, ascending (universe of 2 ids)"
-harness!(iter_ids_exact, 4, {
+fn iter_ids_case() {
     let m = any_mask();
     let x: u64 = vnd::any();
     vnd::assume(x < crate::treemap_model::UNIV);
@@ -162,6 +161,16 @@ harness!(iter_ids_exact, 4, {
         let b_ok = m.block_list.as_ref().map(|b| !b.has_full).unwrap_or(true);
         assert!(!(a_ok && b_ok));
     }
+}
+
+// @harness props=C21 tier=quick timeout=600 cfg=verif_u2 desc="iter_ids yields exactly the selected ids, ascending (universe of 2 ids)"
+harness!(iter_ids_exact_u2, 4, {
+    iter_ids_case();
+});
+
+// @harness props=C21 tier=thorough timeout=1800 cfg=verif_u3 desc="iter_ids yields exactly the selected ids, ascending (universe of 3 ids: two blocked ids before an allowed one)"
+harness!(iter_ids_exact_u3, 5, {
+    iter_ids_case();
 });
 
 // @harness props=C21 tier=quick timeout=600 desc="selected_indices returns the positions of the selected ids"
